@@ -168,6 +168,12 @@ mod regex_impl {
         flags: String,
     }
 
+    impl FancyCompiledRegex {
+        fn has_named_groups(&self) -> bool {
+            self.regex.capture_names().any(|name| name.is_some())
+        }
+    }
+
     impl CompiledRegex for FancyCompiledRegex {
         fn is_match(&self, input: &str) -> Result<bool, String> {
             self.regex.is_match(input).map_err(|e| e.to_string())
@@ -230,7 +236,8 @@ mod regex_impl {
             match self.regex.captures(input) {
                 Ok(Some(caps)) => {
                     let full_match = caps.get(0).ok_or("No match found")?;
-                    let replacement_str = expand_replacement(replacement, &caps);
+                    let replacement_str =
+                        expand_replacement(replacement, &caps, input, self.has_named_groups());
                     let mut result = String::with_capacity(input.len());
                     result.push_str(input.get(..full_match.start()).unwrap_or(""));
                     result.push_str(&replacement_str);
@@ -250,7 +257,8 @@ mod regex_impl {
                 match caps_result {
                     Ok(caps) => {
                         let full_match = caps.get(0).ok_or("No match found")?;
-                        let replacement_str = expand_replacement(replacement, &caps);
+                        let replacement_str =
+                        expand_replacement(replacement, &caps, input, self.has_named_groups());
                         result.push_str(input.get(last_end..full_match.start()).unwrap_or(""));
                         result.push_str(&replacement_str);
                         last_end = full_match.end();
@@ -263,59 +271,93 @@ mod regex_impl {
         }
     }
 
-    /// Expand replacement string with capture group references.
+    /// Expand a replacement template for one match (GetSubstitution).
     ///
-    /// Supports: $1-$99, $&, $$
-    fn expand_replacement(replacement: &str, caps: &fancy_regex::Captures) -> String {
+    /// Supports: $$, $&, $`, $', $1-$99 and $<name>; a reference to a group the expression
+    /// does not have stays as written
+    fn expand_replacement(
+        replacement: &str,
+        caps: &fancy_regex::Captures,
+        input: &str,
+        has_named_groups: bool,
+    ) -> String {
         let mut result = String::with_capacity(replacement.len());
         let chars: Vec<char> = replacement.chars().collect();
+        let group_count = caps.len().saturating_sub(1);
+        let (match_start, match_end) = caps
+            .get(0)
+            .map(|m| (m.start(), m.end()))
+            .unwrap_or((0, 0));
+        let digit = |at: usize| chars.get(at).and_then(|c| c.to_digit(10)).map(|d| d as usize);
         let mut i = 0;
 
-        while i < chars.len() {
-            let Some(&c) = chars.get(i) else { break };
-            let Some(&next) = chars.get(i + 1) else {
+        while let Some(&c) = chars.get(i) {
+            if c != '$' {
                 result.push(c);
                 i += 1;
                 continue;
-            };
-
-            if c == '$' {
-                if next == '$' {
-                    // $$ -> literal $
+            }
+            match chars.get(i + 1) {
+                Some('$') => {
                     result.push('$');
                     i += 2;
-                } else if next == '&' {
-                    // $& -> full match
-                    if let Some(m) = caps.get(0) {
-                        result.push_str(m.as_str());
-                    }
+                }
+                Some('&') => {
+                    result.push_str(input.get(match_start..match_end).unwrap_or(""));
                     i += 2;
-                } else if next.is_ascii_digit() {
-                    // $1-$99
-                    let mut num_str = String::new();
-                    let mut j = i + 1;
-                    while let Some(&ch) = chars.get(j) {
-                        if !ch.is_ascii_digit() || num_str.len() >= 2 {
-                            break;
+                }
+                Some('`') => {
+                    result.push_str(input.get(..match_start).unwrap_or(""));
+                    i += 2;
+                }
+                Some('\'') => {
+                    result.push_str(input.get(match_end..).unwrap_or(""));
+                    i += 2;
+                }
+                Some('<') if has_named_groups => {
+                    let close = chars
+                        .iter()
+                        .skip(i + 2)
+                        .position(|&ch| ch == '>')
+                        .map(|offset| i + 2 + offset);
+                    match close {
+                        Some(close) => {
+                            let name: String =
+                                chars.get(i + 2..close).unwrap_or(&[]).iter().collect();
+                            if let Some(m) = caps.name(&name) {
+                                result.push_str(m.as_str());
+                            }
+                            i = close + 1;
                         }
-                        num_str.push(ch);
-                        j += 1;
+                        None => {
+                            result.push('$');
+                            i += 1;
+                        }
                     }
-                    if let Ok(group_num) = num_str.parse::<usize>()
-                        && let Some(m) = caps.get(group_num)
-                    {
-                        result.push_str(m.as_str());
+                }
+                Some(d) if d.is_ascii_digit() => {
+                    // Two digits when they name an existing group, else one
+                    let one = digit(i + 1).unwrap_or(0);
+                    let two = digit(i + 2).map(|second| one * 10 + second);
+                    let (group, len) = match two {
+                        Some(n) if n >= 1 && n <= group_count => (n, 3),
+                        _ if one >= 1 && one <= group_count => (one, 2),
+                        _ => (0, 0),
+                    };
+                    if len == 0 {
+                        result.push('$');
+                        i += 1;
+                    } else {
+                        if let Some(m) = caps.get(group) {
+                            result.push_str(m.as_str());
+                        }
+                        i += len;
                     }
-                    // If group doesn't exist, replace with empty string
-                    i = j;
-                } else {
-                    // Not a special sequence, keep the $
+                }
+                _ => {
                     result.push('$');
                     i += 1;
                 }
-            } else {
-                result.push(c);
-                i += 1;
             }
         }
         result
